@@ -21,8 +21,8 @@ out=["# Independently seeded changes and which checks catch them","",
 "Written by fresh sub-agents that saw only the property text and a scratch worktree; confirmed by `seeded/verify.sh` (demo fails with the patch and passes without it, the existing suite passes with it); then applied to /repo, the quick checks run, and undone.","",
 "| seed | property | confirmed | checks that report a VIOLATION | checks run that stay silent | inconclusive | the change | what it needs to manifest |","|---|---|---|---|---|---|---|---|"]
 for r in rows: out.append("| %s | %s | %s | %s | %s | %s | %s | %s |"%r)
-missed=[r for r in rows if r[1].split(' ')[0] not in r[3].split(', ')]
-out+=["","Seeds not caught by the check of the property they target: %s"%(', '.join(r[0] for r in missed) or 'none'),""]
+missed=[r for r in rows if r[1].split(' ')[0] not in [c.split(' ')[0] for c in r[3].split(', ')]]
+out+=["","Seeds not caught by the check of the property they target (quick tier, unless the entry says thorough): %s"%(', '.join(r[0] for r in missed) or 'none'),""]
 open(os.path.join(here,'seeded','README.md'),'w').write('\n'.join(out))
 print('seeded/README.md:',len(rows),'seeds;',len(missed),'missed by own property check')
 resfiles=[f for f in sorted(glob.glob(os.path.join(here,'mutants','RESULTS*.txt')))]
